@@ -11,6 +11,8 @@ pub mod c12;
 pub mod c13;
 pub mod c14;
 pub mod c15;
+#[cfg(not(feature = "inproc"))]
+pub mod c16;
 pub mod c19;
 
 macro_rules! table {
@@ -41,6 +43,8 @@ table! {
     "C13" => c13::C13,
     "C14" => c14::C14,
     "C15" => c15::C15,
+    #[cfg(not(feature = "inproc"))]
+    "C16" => c16::C16,
     "C19" => c19::C19,
 }
 
